@@ -1956,9 +1956,11 @@ SDwritedata(int32  sdsid,  /* IN: dataset ID */
         var->created = FALSE;
         was_created  = TRUE;
     } /* end if */
-    else if (var->data_ref == 0 && !IS_RECVAR(var) && (handle->flags & NC_NOFILL)) {
-        /* a dataset created by an earlier session that has no data yet: its first write
-           creates the data element as well and has to give it its full length */
+    else if (!IS_RECVAR(var) && (handle->flags & NC_NOFILL) && handle->file_type == HDF_FILE &&
+             (var->data_ref == 0 || Hlength(handle->hdf_file, var->data_tag, var->data_ref) <= 0)) {
+        /* a dataset created earlier (possibly with a reference already reserved for its
+           data) that has no data yet: its first write creates the data element as well and
+           has to give it its full length */
         var->set_length = TRUE;
     }
 
